@@ -6,9 +6,9 @@ HOOKS = {
     "add_only": True,
 }
 ENGINES = [
-    {"name": "coq-model", "path": "/verif/coq", "serves_properties": ["C01", "C02", "C03", "C15", "C07", "C08", "C12", "C13", "C14", "C17", "C18", "C20"],
+    {"name": "coq-model", "path": "/verif/coq", "serves_properties": ["C01", "C02", "C03", "C10", "C11", "C15", "C07", "C08", "C12", "C13", "C14", "C17", "C18", "C20"],
      "kind_free_text": "hand-written Gallina model (Model/), proofs (Proofs/), property theorems (Props/), Coq 8.16.1"},
-    {"name": "correspondence", "path": "/verif/harness", "serves_properties": ["C01", "C02", "C03", "C15", "C07", "C08", "C12", "C13", "C14", "C17", "C18", "C20"],
+    {"name": "correspondence", "path": "/verif/harness", "serves_properties": ["C01", "C02", "C03", "C10", "C11", "C15", "C07", "C08", "C12", "C13", "C14", "C17", "C18", "C20"],
      "kind_free_text": "Go harness driving /repo (built with -tags verif) + extracted OCaml model and oracle (ocaml/) on the same cases"},
 ]
 NOTES = ("Every check: rebuild Coq closure of Props/<id>.v, parse Print Assumptions, build harness against /repo's working tree, "
@@ -164,6 +164,34 @@ CHECKS = [
         "schema-aware collectors (D9, D10) is detected by the oracle (see DESIGN.md section 7).",
         "Coq proof (induction over document sequences, run-length/capacity arithmetic) + differential correspondence",
         "DESIGN.md section 8 C08"),
+    chk("C10",
+        "10 Coq theorems (Props/C10.v) over a labelled transition system of the synchronized collector (RW mutex, Lock/op/Unlock as separate "
+        "steps) and of the buffered collector over it (pipe of any capacity incl. rendezvous, drainer, producers whose select arms are separate "
+        "transitions, cancel event), for unboundedly many clients, arbitrary programs and EVERY interleaving: the inner log is the sequential "
+        "application of the acknowledged Adds in lock-acquisition order, which preserves each producer's program order (exactly once, in order); "
+        "Resolve returns a prefix; buffered conservation acked = drained ++ in-hand ++ in-pipe (FIFO, no loss, no duplication); everything "
+        "acknowledged before the cancel event is delivered in every later quiescent state; the catcher retains exactly the non-nil errors added "
+        "concurrently; no deadlock and bounded critical sections; the drainer's schedule-point trace is a path of its automaton. Correspondence: "
+        "G producers x M samples with observers, buffer sizes 0..3, GOMAXPROCS varied, stalls at the drainer's schedule points; the driver must "
+        "explain every observed run by a witness schedule executed with the extracted step function; -race build in the thorough tier.",
+        "Trusted: Go runtime semantics of channels, select, context, sync.RWMutex (the LTS); writer preference of RWMutex omitted (adds "
+        "interleavings only). 'No data races' as such cannot be exhibited by a Gallina model: carried by the lock-discipline theorem and the race "
+        "detector (thorough tier), labelled partial. Termination is stated for quiescent states; the never-exiting drainer is outside the wording.",
+        "Coq proof (inductive invariants over all schedules) + witness-schedule correspondence against the real collectors",
+        "DESIGN.md section 8 C10"),
+    chk("C11",
+        "Coq theorems (Props/C11.v): C11_read / C11_read_at - for EVERY list of outer documents the i-th delivered chunk reports the last type-0 "
+        "document preceding it (independent left-to-right specification), None exactly when none precedes; C11_items - document, matrix and "
+        "series views carry the metadata of the chunk each item came from; C11_emit - for all five compressing kinds, every history (any "
+        "documents, unreadable Adds, any write faults) every Resolve result and writer record is [metadata document iff the slot is set, "
+        "immediately before the first chunk, same _id, doc = the last SetMetadata] ++ chunk documents, with the per-kind slot policy (Reset keeps "
+        "it on base/stream/sdyn, clears it on batch/dyn); C11_emit_indep - erasing all SetMetadata calls changes nothing but the metadata "
+        "documents (never mixed into samples). Correspondence: histories with SetMetadata at every position, twin runs without metadata, streams "
+        "composed of pieces with stray type-0 and unknown documents through all readers with per-item metadata.",
+        "Trusted: as C01. The iterator model is sequential (scheduling is C05/C06). Batch/dynamic collectors drop their metadata on Reset and "
+        "after a successful FlushCollector - within the wording, listed as an observation.",
+        "Coq proof (induction over document lists and operation histories) + differential correspondence",
+        "DESIGN.md section 8 C11"),
     chk("C12",
         "Seven Coq theorems (Props/C12.v) over the Gallina model of hdrhist: for every configuration (0<=lo, 1<=hi<2^62, 1<=s<=5) and every "
         "0<=v<=hi the value is accepted, lies in its reported equivalence range, the range is no wider than max(unit, v*10^-s) and is exactly "
